@@ -5,7 +5,7 @@ from ..engines import e1_panic
 from ..lib.cfgq import dominating_guards, switch_edges
 from ..lib.facts import is_callee, callee_fn, sp_str
 from ..lib.trace import Tracer, canon, canon_full, strip, walk
-from . import C14
+from . import C14, C18
 
 LEVEL_TEXT = ("Control- and data-flow rules on the MIR of the CLI's main() (built with --features cli; the test suite never compiles it): (R1) "
               "both graph outputs (pretty print, display_json) are dominated by the Ok edges of File::from_str and File::execute; (R2) no "
@@ -15,7 +15,7 @@ LEVEL_TEXT = ("Control- and data-flow rules on the MIR of the CLI's main() (buil
               "flows only into ExecutionConfig::lazy, --output only into display_json, each --global becomes Value::String of the text "
               "after the first `=`, the functions are Functions::stdlib(), and execute() receives the parsed tree, its source and that "
               "config; (E2.d) no failure in main is dropped (the JSON write error is propagated); plus C14's display_json rules (the file "
-              "is created/truncated and written completely).")
+              "is created/truncated and written completely) and C18's traversal rules for ParseError::all, on which the parse-error gate relies.")
 LEVEL_NOTE = ("Not decided: byte equality of stdout with the library's output, clap's option parsing, exit codes as observed from a process; "
               "the language loader and grammar compilation are outside the property.")
 
@@ -212,4 +212,7 @@ def run(prog, rep):
         def control(self, *a, **k):
             pass
     C14.run(prog, OnlyJ(rep))
+    # the parse-error gate relies on ParseError::all finding every error: the traversal rules are shared with C18
+    C18.traversal(prog, rep)
+    C18.entry_points(prog, rep)
     rep.trust("clap delivers the options as declared; tree-sitter-loader selects the language")
